@@ -269,6 +269,57 @@ def eval_int_helper(sb_tu, name, bits, convs):
     return None
 
 
+def eval_float_helper(sb_tu, name, W):
+    """partially evaluate stringBuilderAppendF32/F64 on boundary finite values with the (correctly rounding) printf model and read the
+    decimal text back: it must denote the same value of that format.  -> problem text or None"""
+    import struct
+
+    def rnd(x):
+        return struct.unpack('<f', struct.pack('<f', x))[0] if W == 32 else x
+    if W == 32:
+        vals = [1.0, 0.1, 1.0 / 3, 16777217.0, 3.4028234663852886e+38, 1.1754943508222875e-38, 1.401298464324817e-45, 0.30000001192092896,
+                8388609.0, 1.00000011920929, 9.99999993922529e-09, 123456.7890625, 2.5, 5e-324]
+    else:
+        vals = [1.0, 0.1, 1.0 / 3, 9007199254740993.0, 1.7976931348623157e+308, 2.2250738585072014e-308, 5e-324, 0.30000000000000004,
+                4503599627370497.0, 1.0000000000000002, 1e23, 123456.789, 2.5, 9.999999999999999e22]
+    vals = sorted({rnd(v) for v in vals} | {-rnd(v) for v in vals[:5]})
+    for v in vals:
+        if v == 0:
+            continue
+        got = []
+
+        def sized(interp, args, node):
+            b_, k = args[1], args[2]
+            if not (isinstance(b_, Ptr) and isinstance(k, int)):
+                raise pe.PEError('append of a symbolic buffer')
+            got.append(''.join(chr(interp.load(b_.c, b_.k + i) & 0xFF) for i in range(k)))
+            return 1
+
+        def plain(interp, args, node):
+            s_ = emit._cstr(interp, args[1])
+            if not isinstance(s_, str):
+                raise pe.PEError('append of a symbolic string')
+            got.append(s_)
+            return 1
+        it = pe.Interp([sb_tu], {'sprintf': emit._sprintf, 'stringBuilderAppendSized': sized, 'stringBuilderAppend': plain, 'strlen': emit._strlen})
+        it.cur_tu = sb_tu
+        try:
+            ps = [p for p in it.explore(lambda: (name, [unk('builder'), v], {})) if not p.aborted]
+        except pe.PEError as ex:
+            raise AnalysisBroken('%s(%r): %s' % (name, v, ex))
+        if len(ps) != 1 or ps[0].ret != 1:
+            return 'has %d paths / returns %r for the value %r' % (len(ps), ps[0].ret if ps else None, v)
+        text = ''.join(got)
+        try:
+            back = rnd(float(text))
+        except (ValueError, OverflowError):
+            return 'appends %r for the value %r' % (text, v)
+        if back != v:
+            return 'appends %r for the value %r (%s): as a C constant converted to binary%d it is %r - another bit pattern' % (
+                text, v, v.hex(), W, back)
+    return None
+
+
 CONV = re.compile(r'%([-+ #0]*)(\d+)?(?:\.(\d+|\*))?(hh|h|ll|l|q|j|z|t|L)?([diouxXeEfFgGcs])$')
 
 
@@ -311,6 +362,10 @@ def check_formats(chk, fmts):
                        detail_ok='format %r prints the full %d-bit value' % (e['fmt'], bits))
             if conv in 'xX':
                 chk.expect(True, 'R07.2', name, '', site)
+            # whatever the shape of the helper (one format, several, a fast path): the digits it appends for boundary values are read back
+            bad = eval_int_helper(e['tu'], name, n, convs)
+            chk.expect(not bad, 'R07.4', name + ':digits', '%s %s' % (name, bad), site, loc,
+                       detail_ok='boundary values are appended as digits that denote the same %d-bit pattern' % n)
         else:
             if prec == '*':
                 # precision passed as an argument: it must be a compile-time constant of the current build configuration
@@ -319,6 +374,13 @@ def check_formats(chk, fmts):
                 p = pv
             else:
                 p = int(prec) if prec is not None else 6
+            try:
+                bad = eval_float_helper(e['tu'], name, 32 if n == 9 else 64)
+            except AnalysisBroken as ex:
+                chk.note('%s: digits not evaluated (%s); decided by the format rule alone' % (name, ex))
+                bad = None
+            chk.expect(not bad, 'R07.3', name + ':digits', '%s %s' % (name, bad), site, loc,
+                       detail_ok='boundary values are appended as decimal text that reads back as the same binary%d value' % (32 if n == 9 else 64))
             chk.expect(conv in convs and p >= n, 'R07.3', name,
                        'format %r gives %d significant digits (%s); round-trip of every finite value needs >= %d '
                        'with a g/e conversion' % (e['fmt'], p, conv, n), site, loc,
